@@ -66,7 +66,10 @@ def case_st(draw):
     host = draw(st.sampled_from(["front.example", "up.example", "evil.example:1999", "FRONT.example:1965"]))
     url = f"gemini://{host}{path}" + (("?" + query) if has_q else "")
     return {"prefix": prefix, "strip": draw(st.booleans()), "upstream": up[0], "up_host": up[1], "up_port": up[2], "up_base": up[3],
-            "static_first": draw(st.sampled_from([None, "/static/", "/api/static/", "/"])),
+            "static_first": draw(st.sampled_from([None, None, "/static/", "/api/static/", "/"])),
+            "second": draw(st.sampled_from([None, None, {"prefix": "/v2/", "strip": True}, {"prefix": "/api/v1/", "strip": True},
+                                            {"prefix": "/mirror/", "strip": False}, {"prefix": "/a/", "strip": True}])),
+            "second_first": draw(st.booleans()),
             "static_after": draw(st.booleans()), "url": url, "path": path or "/", "query": query, "labels": labels}
 
 
@@ -92,8 +95,17 @@ def run_case(case: dict):
     locs = []
     if case["static_first"]:
         locs.append(LocationConfig(prefix=case["static_first"], handler_type=HandlerType.STATIC, document_root=root))
-    locs.append(LocationConfig(prefix=case["prefix"], handler_type=HandlerType.PROXY, upstream=case["upstream"],
-                               strip_prefix=case["strip"], timeout=5.0))
+    main = LocationConfig(prefix=case["prefix"], handler_type=HandlerType.PROXY, upstream=case["upstream"],
+                          strip_prefix=case["strip"], timeout=5.0)
+    sec = case.get("second")
+    if sec and sec["prefix"] == case["prefix"]:
+        sec = None
+    second = LocationConfig(prefix=sec["prefix"], handler_type=HandlerType.PROXY, upstream=case["upstream"],
+                            strip_prefix=sec["strip"], timeout=5.0) if sec else None
+    plist = [(case["prefix"], case["strip"], main)]
+    if second:
+        plist = ([(sec["prefix"], sec["strip"], second)] + plist) if case.get("second_first") else (plist + [(sec["prefix"], sec["strip"], second)])
+    locs += [x[2] for x in plist]
     if case["static_after"]:
         locs.append(LocationConfig(prefix="/", handler_type=HandlerType.STATIC, document_root=root))
     cfg = ServerConfig(host="127.0.0.1", port=1965, document_root=root, locations=locs)
@@ -125,23 +137,23 @@ def run_case(case: dict):
     path = case["path"]
     if any(ord(ch) <= 0x20 or ord(ch) > 0x7E for ch in case["url"]):
         return grey("blank-or-control-in-url", **info)
-    order = ([case["static_first"]] if case["static_first"] else []) + [case["prefix"]] + (["/"] if case["static_after"] else [])
-    chosen = next((i for i, pre in enumerate(order) if path.startswith(pre)), None)
-    proxy_index = 1 if case["static_first"] else 0
+    order = ([(case["static_first"], None)] if case["static_first"] else []) + [(x[0], x[1]) for x in plist] + \
+        ([("/", None)] if case["static_after"] else [])
+    chosen = next((i for i, (pre, _s) in enumerate(order) if path.startswith(pre)), None)
     if not S.startswith((b"2", b"4", b"5", b"3", b"1", b"6")):
         return viol("no-response", f"{S[:60]!r}", **info)
     if S.startswith(b"59"):
         if conns:
             return viol("rejected-request-forwarded", f"{case['url']!r}", **info)
         return ok(rejected=True, **info)
-    if chosen != proxy_index:
+    if chosen is None or order[chosen][1] is None:
         if conns:
-            return viol("proxied-although-other-location-matches", f"path {path!r} belongs to location {order[chosen] if chosen is not None else None!r}", **info)
+            return viol("proxied-although-other-location-matches", f"path {path!r} belongs to location {order[chosen][0] if chosen is not None else None!r}", **info)
         return ok(not_proxied=True, **info)
+    pre, strip = order[chosen]
     # expected upstream URL
     p2 = path
-    pre = case["prefix"]
-    if case["strip"] and path.startswith(pre):
+    if strip and path.startswith(pre):
         rem = path[len(pre):]
         if pre.endswith("/") or rem == "" or rem.startswith("/"):
             p2 = rem if rem.startswith("/") else "/" + rem
@@ -163,7 +175,7 @@ def run_case(case: dict):
     if d["scheme"] != "gemini" or d["userinfo"] is not None or d["fragment"] is not None:
         return viol("url-mapped-unfaithfully", f"{got_line!r}", **info)
     if got != exp:
-        return viol("url-mapped-unfaithfully", f"request {case['url']!r} (prefix {pre!r}, strip={case['strip']}, upstream {case['upstream']!r}): expected {exp}, upstream got {got_line!r}", **info)
+        return viol("url-mapped-unfaithfully", f"request {case['url']!r} (location prefix {pre!r}, strip={strip}, upstream {case['upstream']!r}): expected {exp}, upstream got {got_line!r}", **info)
     return ok(forwarded=True, **info)
 
 
